@@ -203,8 +203,9 @@ impl PriceLevel {
                 remaining = new_remaining;
 
                 // update statistics
+                // value is accounted at the level's price, the price the transaction is reported at
                 self.stats
-                    .record_execution(consumed, order_arc.price(), order_arc.timestamp());
+                    .record_execution(consumed, self.price, order_arc.timestamp());
 
                 if let Some(updated) = updated_order {
                     if hidden_reduced > 0 {
